@@ -9,6 +9,7 @@ import (
 	"encoding/pem"
 	"fmt"
 	"math/big"
+	"os"
 	"regexp"
 	"sort"
 	"sync"
@@ -400,6 +401,12 @@ func TestC16(t *testing.T) {
 			rec.Sample(map[string]interface{}{"base": base.Name, "how": how, "n_bits": n.BitLen(), "e": e})
 		}
 	})
+	// the command line tool applies the configured Rounds whatever selection flags accompany -config
+	cli := os.Getenv("VERIF_CLI")
+	if cli != "" {
+		cliConfigMatrix(t, rec, cli, stats.Scale(2, 6), fermatLint)
+	}
+	cliBudget := stats.Scale(12, 400)
 	rapidRun(t, "fermat", perShard(stats.Scale(6000, 150000)), func(rt *rapid.T) {
 		base := co.Certs[bases[rapid.IntRange(0, len(bases)-1).Draw(rt, "base")]]
 		var p, q *big.Int
@@ -453,6 +460,23 @@ func TestC16(t *testing.T) {
 		}
 		c.DER = der
 		judge(nil, c, rt)
+		if cli != "" && c.Rounds != nil && cliBudget > 0 && how != "independent-primes" {
+			// same key and Rounds through the real binary, with a generated selection
+			cliBudget--
+			cfg := fmt.Sprintf("[%s]\nRounds = %d\n", fermatLint, *c.Rounds)
+			re := "fermat"
+			f := rapid.SampledFrom([]*engine.FilterSpec{nil, {IncludeNames: []string{fermatLint}}, {ExcludeNames: []string{"e_ca_country_name_missing"}},
+				{IncludeSources: []string{lintSourceOf(fermatLint)}}, {NameFilter: &re}}).Draw(rt, "clifilter")
+			cc := c15Case{Inputs: []c15Input{{Kind: gen.Cert, DER: der, Encoding: "pem", Delivery: "file", Base: base.Name}}, Filter: f, Config: &cfg, Format: "pem", Output: "default"}
+			if dir, err := os.MkdirTemp("", "verif-c16-"); err == nil {
+				sig, msg := judgeC15(rec, cc, cli, dir)
+				os.RemoveAll(dir)
+				rec.Class("cli_rounds")
+				if msg != "" {
+					fail(rt, rec, "c15", "cli-rounds|"+sig, msg, cc)
+				}
+			}
+		}
 		if rec.WantSample() && rapid.IntRange(0, 50).Draw(rt, "smp") == 0 {
 			rec.Sample(map[string]interface{}{"base": base.Name, "how": how, "p": c.P, "q": c.Q, "rounds": c.Rounds})
 		}
